@@ -20,7 +20,7 @@ class StepObs(object):
                'current_state', 'spy_rtc', 'spy_full', 'trace', 'ret', 'dispatched', 'live_spy',
                'live_trace', 'queue', 'deferred', 'pred', 'tb', 'trace_text_ok', 'instrumented',
                'trace_len_before', 'spy_full_before', 'model_q', 'model_d', 'trace_before', 'posted',
-               'trace_objs', 'trace_objs_before')
+               'trace_objs', 'trace_objs_before', 'sib_got', 'sib_pred', 'sib_queue', 'sib_model')
 
   def __init__(self, op):
     self.op = op
@@ -52,6 +52,10 @@ class StepObs(object):
     self.trace_objs = None          # the record objects themselves (kept alive: identity tells new records from old ones)
     self.trace_objs_before = None
     self.posted = []
+    self.sib_got = None
+    self.sib_pred = None
+    self.sib_queue = None
+    self.sib_model = None
 
 
 class QueueModel(object):
@@ -114,6 +118,27 @@ class ChartRun(object):
     self.companion = None
     self.companion_log = []
     self.companion_problems = []
+    self.sib = None          # a second, independent queued chart alive in the same process (sc['sibling'])
+    self.sib_log = []
+    self.sib_q = []
+
+  def make_sibling(self):
+    ev = seams.mods['event']
+    hsm = seams.mods['hsm']
+    rs, signals = ev.return_status, ev.signals
+    log = self.sib_log
+    user_signals = set(self.spec.signals)
+
+    def sib_only(chart, e):
+      if e.signal in (signals.ENTRY_SIGNAL, signals.INIT_SIGNAL, signals.EXIT_SIGNAL):
+        return rs.HANDLED
+      if e.signal_name in user_signals:
+        log.append(getattr(e, 'payload', None))
+        return rs.HANDLED
+      chart.temp.fun = chart.top
+      return rs.SUPER
+    self.sib = hsm.HsmWithQueues()
+    self.sib.start_at(hsm.spy_on(sib_only))
 
   # ---- a second, independent chart: actions of the chart under test send it events ("orthogonal component")
   def poke(self):
@@ -384,8 +409,13 @@ class ChartRun(object):
       ob.trace = [(t.start_state, t.signal, t.end_state, t.datetime) for t in c.full.trace]
       ob.trace_objs = list(c.full.trace)
     if host in ('queued',):
-      ob.queue = [getattr(e, 'payload', None) for e in c.queue.snapshot()] if isinstance(c.queue, prims.SimDeque) else None
-      ob.deferred = [getattr(e, 'payload', None) for e in c.defer_queue.snapshot()] if isinstance(c.defer_queue, prims.SimDeque) else None
+      snap = lambda q: q.snapshot() if isinstance(q, prims.SimDeque) else list(q)
+      ob.queue = [getattr(e, 'payload', None) for e in snap(c.queue)]
+      ob.deferred = [getattr(e, 'payload', None) for e in snap(c.defer_queue)]
+    if self.sib is not None:
+      q = self.sib.queue
+      ob.sib_queue = [getattr(e, 'payload', None) for e in (q.snapshot() if isinstance(q, prims.SimDeque) else list(q))]
+      ob.sib_model = list(self.sib_q)
 
   def do(self, op, fn):
     ob = StepObs(op)
@@ -433,6 +463,8 @@ class ChartRun(object):
           c.defer(pre_events.pop(0))
       c.start_at(build.h[sc['start']])
       self.started = True
+      if sc.get('sibling'):
+        self.make_sibling()
       if is_ao:
         self.await_idle()
     pred0 = None
@@ -531,6 +563,21 @@ class ChartRun(object):
             build.cbs[(sname, sig)] = cb
             c.register_signal_callback(build.h[sname], getattr(ev.signals, sig), cb)
         ob = self.do(op, f)
+      elif k in ('sib_post_fifo', 'sib_post_lifo'):
+        e = self.new_event(op[1])
+        self.created.remove(e.payload)
+        if k == 'sib_post_fifo':
+          self.sib_q.append(e.payload)
+        else:
+          self.sib_q.insert(0, e.payload)
+        ob = self.do(op, (lambda: self.sib.post_fifo(e)) if k == 'sib_post_fifo' else (lambda: self.sib.post_lifo(e)))
+      elif k == 'sib_rtc':
+        want = self.sib_q.pop(0) if self.sib_q else None
+        n0 = len(self.sib_log)
+        ob = self.do(op, lambda: self.sib.next_rtc())
+        ob.sib_pred = want
+        ob.sib_got = list(self.sib_log[n0:])
+        ob.sib_model = list(self.sib_q)
       elif k in ('clear_spy', 'clear_trace'):
         # the logs are emptied between steps; what later steps add is judged relative to what is there
         ob = self.do(op, (lambda: c.clear_spy()) if k == 'clear_spy' else (lambda: c.clear_trace()))
